@@ -6,6 +6,12 @@
 ** closes the descriptor exactly when it is the library's to close; psf_close_rsrc forgets what it closed.
 */
 #include "env_pre.h"
+#include <fcntl.h>
+#include <sys/stat.h>
+#include <unistd.h>
+/* open() is variadic: redirected to a non-variadic model (E3) */
+int verif_open (const char *path) ;
+#define open(p, ...)	verif_open (p)
 #include "file_io.c"
 #include "ghost.h"
 #include "env_stubs.h"
@@ -48,14 +54,30 @@ off_t lseek (int fd, off_t off, int whence)
 	if (r_nd < 0) { verif_errno_cell = e_nd == 0 ? EIO : e_nd ; return -1 ; }
 	return r_nd ;
 }
+unsigned g_opened, g_released ;	/* descriptors obtained from open(); descriptors given back (a close that is not interrupted) */
 int close (int fd)
 {	int r_nd, e_nd ;
 	g_close_calls ++ ; g_closed_fd = fd ;
 	if (r_nd != 0)
-	{	if (g_eintr_budget > 0 && e_nd == EINTR) { g_eintr_budget -- ; verif_errno_cell = EINTR ; }
-		else verif_errno_cell = (e_nd == EINTR || e_nd == 0) ? EIO : e_nd ;
+	{	if (g_eintr_budget > 0 && e_nd == EINTR) { g_eintr_budget -- ; verif_errno_cell = EINTR ; return -1 ; }
+		verif_errno_cell = (e_nd == EINTR || e_nd == 0) ? EIO : e_nd ;
+		g_released ++ ;
 		return -1 ;
 		} ;
+	g_released ++ ;
+	return 0 ;
+}
+int verif_open (const char *path)
+{	int r_nd, e_nd ;
+	__CPROVER_assert (__CPROVER_r_ok (path, 1), "E3 open: path readable") ;
+	if (r_nd < 0) { verif_errno_cell = e_nd == 0 ? ENOENT : e_nd ; return -1 ; }
+	g_opened ++ ;
+	return r_nd ;
+}
+int fstat (int fd, struct stat *st)
+{	int r_nd ; off_t s_nd ;
+	if (r_nd) { verif_errno_cell = EIO ; return -1 ; }
+	st->st_size = s_nd ;
 	return 0 ;
 }
 char * strerror (int e) { static char msg [8] = "error" ; return msg ; }
@@ -102,7 +124,7 @@ int vin_virtual, vin_do_not_close, vin_filedes, vin_rsrc ;
 int psf_fclose (SF_PRIVATE *psf)
 __CPROVER_requires (__CPROVER_is_fresh (psf, sizeof (SF_PRIVATE)) && 0 <= g_eintr_budget && g_eintr_budget <= 1000)
 __CPROVER_requires (psf->virtual_io == vin_virtual && psf->file.do_not_close_descriptor == vin_do_not_close && psf->file.filedes == vin_filedes && g_close_calls == 0)
-__CPROVER_assigns (psf->file.filedes, psf->error, psf->syserr, g_close_calls, g_closed_fd, g_eintr_budget, verif_errno_cell)
+__CPROVER_assigns (psf->file.filedes, psf->error, psf->syserr, g_close_calls, g_released, g_closed_fd, g_eintr_budget, verif_errno_cell)
 __CPROVER_ensures ((vin_virtual || vin_do_not_close || vin_filedes < 0) ==> g_close_calls == 0) /*@C14.descriptor_not_owned_is_never_closed*/ /*@C16.descriptor_not_owned_is_never_closed*/
 __CPROVER_ensures ((!vin_virtual && !vin_do_not_close && vin_filedes >= 0) ==> (g_close_calls >= 1 && g_closed_fd == vin_filedes)) /*@C14.owned_descriptor_is_closed*/ /*@C16.owned_descriptor_is_closed*/
 __CPROVER_ensures (!vin_virtual ==> psf->file.filedes == -1) /*@C19.closed_descriptor_is_forgotten*/
@@ -111,11 +133,21 @@ __CPROVER_ensures (!vin_virtual ==> psf->file.filedes == -1) /*@C19.closed_descr
 int psf_close_rsrc (SF_PRIVATE *psf)
 __CPROVER_requires (__CPROVER_is_fresh (psf, sizeof (SF_PRIVATE)) && 0 <= g_eintr_budget && g_eintr_budget <= 1000)
 __CPROVER_requires (psf->rsrc.filedes == vin_rsrc && g_close_calls == 0)
-__CPROVER_assigns (psf->rsrc.filedes, g_close_calls, g_closed_fd, g_eintr_budget, verif_errno_cell)
+__CPROVER_assigns (psf->rsrc.filedes, g_close_calls, g_released, g_closed_fd, g_eintr_budget, verif_errno_cell)
 __CPROVER_ensures (psf->rsrc.filedes == -1) /*@C19.closed_descriptor_is_forgotten*/ /*@C16.closed_descriptor_is_forgotten*/
 __CPROVER_ensures (vin_rsrc < 0 ==> g_close_calls == 0) /*@C14.descriptor_not_owned_is_never_closed*/
 __CPROVER_ensures (vin_rsrc >= 0 ==> g_closed_fd == vin_rsrc) /*@C16.owned_descriptor_is_closed*/
 __CPROVER_ensures (__CPROVER_return_value == 0)
+;
+
+int psf_open_rsrc (SF_PRIVATE *psf)
+__CPROVER_requires (__CPROVER_is_fresh (psf, sizeof (SF_PRIVATE)) && 0 <= g_eintr_budget && g_eintr_budget <= 1000)
+__CPROVER_requires (psf->rsrc.filedes == vin_rsrc && g_opened == 0 && g_released == 0 && g_close_calls == 0)
+__CPROVER_assigns (psf->rsrc.filedes, psf->rsrclength, psf->error, __CPROVER_object_whole (psf->rsrc.path), __CPROVER_object_whole (psf->syserr),
+	g_opened, g_released, g_close_calls, g_closed_fd, g_eintr_budget, verif_errno_cell)
+__CPROVER_ensures (vin_rsrc > 0 ==> (g_opened == 0 && __CPROVER_return_value == 0))
+__CPROVER_ensures (vin_rsrc <= 0 ==> g_opened - g_released == (psf->rsrc.filedes >= 0 ? 1u : 0u)) /*@C16.every_probed_descriptor_is_kept_or_closed*/
+__CPROVER_ensures ((vin_rsrc <= 0 && __CPROVER_return_value != 0) ==> psf->rsrc.filedes < 0) /*@C16.failed_probe_records_no_descriptor*/
 ;
 
 static void keep (void) { void *k [] = { (void *) vio_read_c, (void *) vio_write_c, (void *) vio_seek_c, (void *) vio_tell_c } ; (void) k ; }
@@ -148,6 +180,13 @@ void h_fclose (void)
 {	SF_PRIVATE *psf ; int a [4] ; vin_virtual = a [0] ; vin_do_not_close = a [1] ; vin_filedes = a [2] ; g_eintr_budget = a [3] ; g_close_calls = 0 ;
 	psf_fclose (psf) ;
 	REACH (g_close_calls == 1, "descriptor closed") ;
+	CANARY () ;
+}
+void h_open_rsrc (void)
+{	SF_PRIVATE *psf ; int a [2] ; vin_rsrc = a [0] ; g_eintr_budget = a [1] ; g_close_calls = 0 ; g_opened = 0 ; g_released = 0 ;
+	int r = psf_open_rsrc (psf) ;
+	REACH (r == 0 && g_opened == 2, "second probe succeeds after the first was closed") ;
+	REACH (r != 0 && g_opened == 0, "no resource fork") ;
 	CANARY () ;
 }
 void h_close_rsrc (void)
